@@ -15,7 +15,7 @@ import sys
 from fractions import Fraction
 
 from . import spec, util
-from .util import InjectedFault, canon, jkey
+from .util import InjectedFault, InjectedTypeError, canon, jkey
 
 ID = "C12"
 RULE = ("a run = 1-3 lists of 1-5 expressions over variables, constants, sums, products, "
@@ -167,7 +167,8 @@ def _gen_list(r, wrapper_free, nv, shared_blocks=None, shared_wrapped=None):
             if t[1] in OPCLS and r.random() < 0.25:
                 px = r.choice([["none"], ["s", "u"], ["s", "v"]])
                 sc = r.choice([["s", "pymbolic_eval"], ["s", "pymbolic_eval"],
-                               ["s", "pymbolic_expr"], ["s", "pymbolic_global"]])
+                               ["s", "pymbolic_expr"], ["s", "pymbolic_global"],
+                               ["none"]])     # (deprecated spelling of the default scope)
                 t2 = ["n", "DerivedCse" if r.random() < 0.12 else "CommonSubexpression",
                       [t2, px, sc]]
                 if r.random() < 0.15:
@@ -179,6 +180,10 @@ def _gen_list(r, wrapper_free, nv, shared_blocks=None, shared_wrapped=None):
             # (equal wrappers, distinct objects)
             if shared_wrapped and r.random() < 0.7:
                 w = r.choice(shared_wrapped)
+                if r.random() < 0.3 and w[2][2] in (["none"], ["s", "pymbolic_eval"]):
+                    # the same wrapper in the other spelling of the default scope
+                    w = ["n", w[1], [w[2][0], w[2][1],
+                                     ["none"] if w[2][2] != ["none"] else ["s", "pymbolic_eval"]]]
                 out[r.randrange(len(out))] = ["n", "Sum", [["t", [w, leaf()]]]]
 
             def wrapped_subterms(t, acc):
@@ -303,6 +308,8 @@ def generate(seed, tier):
         if fault_run and r.random() < 0.3:
             fault = {"kind": "env_raise", "site": "env:" + r.choice(["f", "g", "h"]),
                      "nth": r.randint(1, 4)}
+            if r.random() < 0.4:
+                fault["exc"] = "TypeError"     # what a function of the wrong arity raises
         op = ["eval", e, [what, lid, r.randrange(n)], fault]
         if r.random() < 0.12:
             op.append({"thread": True})
@@ -396,6 +403,20 @@ def _values_agree(a, b, any_dtype=False):
             return False
         return abs(fa - fb) <= 1e-9 * max(1.0, abs(fa), abs(fb))
     return type(a) is type(b) and a == b
+
+
+def norm_scope(c):
+    """canon form with the deprecated spelling scope=None of a wrapper replaced by the default
+    scope it is documented to mean: two spellings, one wrapper"""
+    if isinstance(c, list) and c:
+        if c[0] == "E":
+            fs = [norm_scope(f) for f in c[2]]
+            if c[1] in WRAPPERS and len(fs) == 3 and fs[2] == ["none"]:
+                fs[2] = ["str", "pymbolic_eval"]
+            return ["E", c[1], fs]
+        if c[0] == "tuple":
+            return ["tuple", [norm_scope(x) for x in c[1]]]
+    return c
 
 
 def fold_false_wrappers(e, p):
@@ -657,7 +678,8 @@ def execute(scenario, open_sigs):
         e.sim.disarm()
         fired0 = e.sim.fired
         if fault:
-            e.sim.arm(fault["site"], fault["nth"])
+            e.sim.arm(fault["site"], fault["nth"],
+                      InjectedTypeError if fault.get("exc") == "TypeError" else InjectedFault)
         mark = obs.mark()
 
         def run():
@@ -697,20 +719,35 @@ def execute(scenario, open_sigs):
             for c in comps:
                 if c.frame is not None and id(c.frame) in live \
                         and c.handler == "map_common_subexpression_uncached":
-                    e.allow[c.key] = e.allow.get(c.key, 0) + 1
+                    ak = jkey(norm_scope(canon(c.expr, obs.memo)))
+                    e.allow[ak] = e.allow.get(ak, 0) + 1
         hit_before = False
+        started_here = {}
+        wkeys = {}
+        for c in comps:
+            if c.handler.startswith("map_common_subexpression"):
+                wkeys[id(c)] = jkey(norm_scope(canon(c.expr, obs.memo)))
+        for c in comps:
+            if c.handler == "map_common_subexpression_uncached":
+                # within one evaluation a wrapper's computation is never started twice, not
+                # even when the evaluation fails: the failure ends it
+                started_here[wkeys[id(c)]] = started_here.get(wkeys[id(c)], 0) + 1
+                if started_here[wkeys[id(c)]] > 1:
+                    viol("C12/wrapper-computed-twice",
+                         {"evaluator": e.desc, "wrapper": wkeys[id(c)][:500], "what": tag,
+                          "started_in_one_evaluation": started_here[wkeys[id(c)]]})
         for c in comps:
             if c.handler == "map_common_subexpression":
-                if c.key in e.uncached and e.faulted:
+                if wkeys[id(c)] in e.uncached and e.faulted:
                     hit_before = True
-                e.reached.add(c.key)
+                e.reached.add(wkeys[id(c)])
             if c.handler == "map_common_subexpression_uncached":
-                e.reached.add(c.key)
-                n = e.uncached[c.key] = e.uncached.get(c.key, 0) + 1
+                e.reached.add(wkeys[id(c)])
+                n = e.uncached[wkeys[id(c)]] = e.uncached.get(wkeys[id(c)], 0) + 1
                 wrappers_evaluated += 1
-                if n > 1 + e.allow.get(c.key, 0):
+                if n > 1 + e.allow.get(wkeys[id(c)], 0):
                     viol("C12/wrapper-computed-twice",
-                         {"evaluator": e.desc, "wrapper": c.key[:500], "count": n, "what": tag})
+                         {"evaluator": e.desc, "wrapper": wkeys[id(c)][:500], "count": n, "what": tag})
         # the child of a wrapper, computed on behalf of that wrapper (directly, or through a
         # chain of wrappers directly around it): once per distinct wrapper, however it is reached
         live = obs.frames_of_traceback(got[1]) if got[0] != "ok" else ()
